@@ -582,6 +582,121 @@ Section Lin.
     rewrite (map_nth g), seq_nth by exact Hi. reflexivity.
   Qed.
 
+  (* ---------------- a sequential tail after the parallel part ---------------- *)
+  Lemma run_app : forall s1 s2 st,
+    run st (s1 ++ s2) =
+    let '(st1, tr1) := run st s1 in let '(st2, tr2) := run st1 s2 in (st2, tr1 ++ tr2).
+  Proof.
+    induction s1 as [|t s1 IH]; intros s2 st; cbn.
+    - destruct (run st s2) as [st2 tr2]. reflexivity.
+    - destruct (step st t) as [sa ev]. rewrite IH.
+      destruct (run sa s1) as [st1 tr1]. destruct (run st1 s2) as [st2 tr2].
+      rewrite app_assoc. reflexivity.
+  Qed.
+
+  Lemma ops_of_notag : forall t (tr : list (nat * O)), (forall e, In e tr -> fst e <> t) -> ops_of t tr = [].
+  Proof.
+    intros t tr. unfold LogConc.ops_of. induction tr as [|[s o] tr IH]; intros H; cbn; [reflexivity|].
+    destruct (s =? t) eqn:E.
+    - apply Nat.eqb_eq in E. exfalso. apply (H (s, o)); [left; reflexivity | exact E].
+    - apply IH. intros e He. apply H. right. exact He.
+  Qed.
+
+  Lemma ops_of_app : forall t (a b : list (nat * O)), ops_of t (a ++ b) = ops_of t a ++ ops_of t b.
+  Proof. intros t a b. unfold LogConc.ops_of. rewrite filter_app, map_app. reflexivity. Qed.
+
+  (* a trace in which only thread n has operations is that thread's operation list *)
+  Lemma untag_single : forall n (tr : list (nat * O)),
+    (forall t, t <> n -> ops_of t tr = []) -> untag tr = ops_of n tr.
+  Proof.
+    intros n tr. unfold LogConc.untag, LogConc.ops_of.
+    induction tr as [|[s o] tr IH]; intros H; cbn; [reflexivity|].
+    destruct (s =? n) eqn:E.
+    - cbn. f_equal. apply IH. intros t Ht. specialize (H t Ht). cbn in H.
+      destruct (s =? t); [discriminate H | exact H].
+    - apply Nat.eqb_neq in E. specialize (H s E). cbn in H. rewrite Nat.eqb_refl in H. discriminate H.
+  Qed.
+
+  Lemma concat_single : forall (M : list (list O)) n x,
+    (forall t, t <> n -> nth t M [] = []) -> nth n M [] = x -> concat M = x.
+  Proof.
+    induction M as [|m M IH]; intros n x H Hn; cbn.
+    - destruct n; cbn in Hn; exact Hn.
+    - destruct n as [|n].
+      + cbn in Hn. subst m. replace (concat M) with (@nil O); [apply app_nil_r|].
+        symmetry. clear IH. induction M as [|m M IHM]; [reflexivity|]. cbn.
+        pose proof (H 1 (Nat.neq_succ_0 0)) as H1. cbn in H1. rewrite H1. cbn. apply IHM.
+        intros [|t] Ht; [congruence|]. apply (H (S (S t))). congruence.
+      + pose proof (H 0 (Nat.neq_0_succ n)) as H0. cbn in H0. subst m. cbn.
+        apply (IH n); [|exact Hn]. intros t Ht. apply (H (S t)). congruence.
+  Qed.
+
+  Lemma t_ops_of_nth : forall t (ths : list thread), t_ops_of t ths = nth t (map t_ops ths) [].
+  Proof.
+    intros t ths. unfold t_ops_of. revert t. induction ths as [|a l IH]; intros [|t]; cbn; try reflexivity. apply IH.
+  Qed.
+
+  (* operations issued by one more thread AFTER all the others have returned: the others' part
+     of the trace is a complete linearisation of their programs (in program order), and what
+     follows is exactly the tail, in its order *)
+  Theorem run_tail : forall v0 progs tail s1 s2 st1 tr1 st2 tr2,
+    run (init_state O V v0 (progs ++ [tail])) s1 = (st1, tr1) -> run st1 s2 = (st2, tr2) ->
+    (forall t, In t s1 -> t < length progs) ->
+    (forall t, t < length progs -> t_ops_of t (m_threads st1) = []) ->
+    all_returned O V st2 = true ->
+    untag tr2 = tail
+    /\ Permutation (untag tr1) (concat progs)
+    /\ (forall t, ops_of t tr1 = nth t progs [])
+    /\ snd (m_cell st2) = fold_left apply_op (untag tr1 ++ tail) v0.
+  Proof.
+    intros v0 progs tail s1 s2 st1 tr1 st2 tr2 H1 H2 Hs1 Hdone Hret.
+    set (n := length progs).
+    destruct (Inv_Ord_run s1 v0 (concat (progs ++ [tail])) (progs ++ [tail]) _ [] st1 tr1
+                (Inv_init v0 (progs ++ [tail])) (Ord_init v0 (progs ++ [tail])) H1) as [HI1 HO1].
+    cbn [app] in HI1, HO1.
+    destruct (Inv_Ord_run s2 v0 _ _ st1 tr1 st2 tr2 HI1 HO1 H2) as [HI2 HO2].
+    (* no event of the first part belongs to a thread >= n *)
+    assert (Htag : forall t, n <= t -> ops_of t tr1 = []).
+    { intros t Ht. apply ops_of_notag. intros e He.
+      pose proof (run_tags _ _ _ _ e H1 He) as Hin. specialize (Hs1 _ Hin). fold n in Hs1. lia. }
+    assert (Hnth_lt : forall t, t < n -> nth t (progs ++ [tail]) [] = nth t progs []).
+    { intros t Ht. apply app_nth1. exact Ht. }
+    assert (Hnth_n : nth n (progs ++ [tail]) [] = tail).
+    { rewrite app_nth2 by (unfold n; lia). unfold n. rewrite Nat.sub_diag. reflexivity. }
+    assert (Hnth_gt : forall t, n < t -> nth t (progs ++ [tail]) [] = []).
+    { intros t Ht. apply nth_overflow. rewrite app_length. cbn. fold n. lia. }
+    assert (Hc : forall t, ops_of t tr1 = nth t progs []).
+    { intros t. destruct (Nat.lt_ge_cases t n) as [Hlt | Hge].
+      - pose proof (HO1 t) as E. rewrite (Hdone t Hlt), app_nil_r, (Hnth_lt t Hlt) in E. exact E.
+      - rewrite (Htag t Hge). symmetry. apply nth_overflow. exact Hge. }
+    (* what is still pending after the first part is the tail *)
+    assert (Hpend : pending (m_threads st1) = tail).
+    { unfold pending. apply (concat_single _ n).
+      - intros t Ht. rewrite <- t_ops_of_nth.
+        destruct (Nat.lt_ge_cases t n) as [Hlt | Hge]; [apply Hdone; exact Hlt|].
+        pose proof (HO1 t) as E. rewrite (Htag t Hge), (Hnth_gt t) in E by lia. exact E.
+      - rewrite <- t_ops_of_nth. pose proof (HO1 n) as E.
+        rewrite (Htag n (Nat.le_refl n)), Hnth_n in E. exact E. }
+    assert (Hp : Permutation (untag tr1) (concat progs)).
+    { destruct HI1 as (_ & Hperm & _). rewrite Hpend, concat_app in Hperm. cbn in Hperm.
+      rewrite app_nil_r in Hperm. apply Permutation_app_inv_r in Hperm. exact Hperm. }
+    (* the second part: only thread n *)
+    assert (Hend : forall t, ops_of t (tr1 ++ tr2) = nth t (progs ++ [tail]) []).
+    { intros t. pose proof (HO2 t) as E. rewrite (all_returned_t_ops st2 t Hret), app_nil_r in E. exact E. }
+    assert (Hother : forall t, t <> n -> ops_of t tr2 = []).
+    { intros t Ht. pose proof (Hend t) as E. rewrite ops_of_app in E.
+      destruct (Nat.lt_ge_cases t n) as [Hlt | Hge].
+      - rewrite (Hnth_lt t Hlt), <- (Hc t) in E.
+        rewrite <- (app_nil_r (ops_of t tr1)) in E at 2. apply app_inv_head in E. exact E.
+      - rewrite (Htag t Hge), (Hnth_gt t) in E by lia. exact E. }
+    assert (Ht2 : untag tr2 = tail).
+    { rewrite (untag_single n tr2 Hother). pose proof (Hend n) as E.
+      rewrite ops_of_app, (Htag n (Nat.le_refl n)), Hnth_n in E. exact E. }
+    split; [exact Ht2 | split; [exact Hp | split; [exact Hc|]]].
+    destruct HI2 as (Hcell & _). rewrite Hcell. unfold LogConc.untag. rewrite map_app.
+    fold (untag tr1). fold (untag tr2). rewrite Ht2. reflexivity.
+  Qed.
+
   (* reachable = the state after some schedule from the initial state *)
   (* lock-freedom: whenever a thread with a pending operation gets three steps, some
      operation (its own or, if not, another thread's) is linearised in that stretch *)
